@@ -56,6 +56,7 @@ def verify_variant(contract, variant_name, timeout_ms=10000, registry=None):
         worklist = [[]]
         try:
             t_end = time.time() + float(os.environ.get("PYVC_REFUTE_BUDGET_S", "90"))
+            sh2.deadline = t_end
             while worklist and sh2.paths < 400 and time.time() < t_end:
                 prefix = worklist.pop()
                 sh2.paths += 1
@@ -73,6 +74,9 @@ def verify_variant(contract, variant_name, timeout_ms=10000, registry=None):
                 o.label = o.label + " (bounded refutation, <= 3 loop iterations)"
                 refuted.append(o)
         sh.obligations.extend(refuted)
+    if status == "ok" and sh.cover.get("requires") == "unsat":
+        status = "error"
+        message = "vacuous: requires of %s is unsatisfiable" % contract.key
     if status == "ok" and feasible_exits == 0:
         status = "error"
         message = "vacuous: no feasible exit (contradictory precondition or path conditions)"
@@ -123,11 +127,14 @@ def run_path(eng, contract, types, src):
             for cl in contract.requires + contract.variant_requires.get(sh.variant_name, []):
                 eng.assume(eng.truth(eng.eval_clause(cl)))
             eng.frames[0].env = env
-            if "requires" not in sh.cover:
+            if sh.cover.get("requires") != "sat":
+                # vacuity guard: the precondition must be satisfiable on at least one path through its own evaluation
+                # (a path on which it is contradictory is merely infeasible; no satisfiable path at all = vacuous contract, see below)
                 r = smt.check_sat(eng.pc, sh.timeout_ms, want_model=False)[0]
-                sh.cover["requires"] = r
                 if r == "unsat":
-                    raise RuntimeError("vacuous: requires of %s is unsatisfiable" % contract.key)
+                    sh.cover.setdefault("requires", "unsat")
+                    raise PathEnd()
+                sh.cover["requires"] = r
             eng.pc_entry_len = len(eng.pc)
             eng.env0 = eng.clause_env(env)
             eng.alloc0 = eng.alloc_term()
